@@ -171,6 +171,19 @@ def _configs(tier, salts):
                                 cfg = cfgs.base_cfg(prob, salt, npt=3, rhobeg=0.3, rhoend=1e-2, maxfun=maxfun, memo=False, noise_amp=0.02,
                                                     nsamples=ns, user_params=cfgs.user_params(3, up), tag_restart=rmode + "_avg")
                                 out.append((cfg, {"depth": 0}))
+        # regulariser, start at the exact solution of a square linear system: zero residual but sum(r^2)+h(x0) > abs_tol, so a
+        # 'sufficiently small' claim at x0 would be false; also with a small-objective threshold that the regularised value meets
+        if salt == 0 or (tier == "thorough" and salt == 1):
+            for reg in ("l1", "l2"):
+                for at in (None, 10.0):
+                    up = {"func_tol.max_iters": 10}
+                    if at is not None:
+                        up["model.abs_tol"] = at
+                    cfg = {"prob": {"f": "lin", "A": [[1.0, 0.5], [0.25, 1.0]], "b": [1.0, -0.5 + 0.01 * salt], "salt": salt},
+                           "x0": np.linalg.solve(np.array([[1.0, 0.5], [0.25, 1.0]]), np.array([1.0, -0.5 + 0.01 * salt])).tolist(),
+                           "reg": {"r": reg, "lam": 0.5}, "npt": 3, "rhobeg": 0.3, "rhoend": 0.01, "maxfun": 40, "memo": True,
+                           "user_params": up, "tag_restart": "reg_zero_residual_x0"}
+                    out.append((cfg, {"depth": 0}))
         # geometries whose trust-region step can increase the model (the warning / error exits of calculate_ratio)
         if salt == 0 or (tier == "thorough" and salt == 1):
             for cfg, plan in cfgs.tr_increase_cfgs(salt, restarts=("none", "hard_new", "soft")):
